@@ -78,6 +78,23 @@ def run(ctx):
             import copy, pickle
             x = pickle.loads(pickle.dumps(x)) if c["copied"] == 1 else copy.deepcopy(x)
         res = get_reverse_complement(x)
+        if not flat and c.get("elements") and any(rows):
+            # single letters and fancy (row, column) reads of the result, before anything else has looked at it
+            er = random.Random(c["elements"])
+            cells = [(i, j) for i, r_ in enumerate(rows) for j in range(len(r_))]
+            pick = [er.choice(cells) for _ in range(min(4, len(cells)))]
+            exp_cells = [rc_model(rows[i])[j] for i, j in pick]
+            try:
+                if er.random() < 0.5:
+                    got_cells = [res[i, j].to_string().upper() if hasattr(res[i, j], "to_string") else str(res[i, j]).upper() for i, j in pick]
+                else:
+                    sub = res[np.array([i for i, _ in pick]), np.array([j for _, j in pick])]
+                    got_cells = list(sub.to_string().upper()) if hasattr(sub, "to_string") else [str(v).upper() for v in sub]
+            except Exception as e:
+                got_cells = "raised %s" % type(e).__name__
+            ctx.check("reverse_complement", got_cells == exp_cells, "reverse_complement/wrong-letters:single-elements-of-the-fresh-result", "letters %r of the reverse complement of %r read %r, expected %r" % (pick, rows, got_cells, exp_cells),
+                      dict(c, cells=pick, got=got_cells, expected=exp_cells), (ename, tuple(rows), tuple(pick)))
+            ctx.count("element_reads_of_fresh_results")
         got = [t.upper() for t in text_rows(res)]
         nontriv = (ename, tuple(rows)) if sum(map(len, rows)) >= 2 else None
         lower = any(ch.islower() for r in rows for ch in r)
@@ -109,7 +126,7 @@ def run(ctx):
         ename = rng.choice(list(ENC))
         alpha = rng.choice(["ACGT", "ACGTN", "ACGTNacgtn", "acgt"])
         rows = ["".join(rng.choice(alpha) for _ in range(rng.choice([0, 1, 2, 5, 17]))) for _ in range(rng.randint(1, 5))]
-        ctx.run_case(case_rc, {"rows": rows, "enc": ename, "view": rng.randrange(1, 2 ** 30) if rng.random() < 0.3 else 0, "copied": rng.choice([0, 0, 0, 0, 1, 2])})
+        ctx.run_case(case_rc, {"rows": rows, "enc": ename, "view": rng.randrange(1, 2 ** 30) if rng.random() < 0.3 else 0, "copied": rng.choice([0, 0, 0, 0, 1, 2]), "elements": rng.randrange(1, 2 ** 30) if rng.random() < 0.25 else 0})
     # rows of about 100 000 bases whose lengths differ by one (whole chromosomes arms / long reads)
     def case_long(c):
         r = random.Random(c["seed"])
@@ -130,11 +147,27 @@ def run(ctx):
     def case_stranded(c):
         s, ivs, ename = c["sequence"], c["intervals"], c["enc"]
         seq = encode(s, ename)
+        if c.get("edit"):
+            seq = seq.copy()            # text encoded from a str is a read-only buffer; a caller who edits its reference holds a copy
         table = StrandedInterval(["x"] * len(ivs), [a for a, b, st in ivs], [b for a, b, st in ivs], [st for a, b, st in ivs])
         res = get_strand_specific_sequences(seq, table)
         got = [t.upper() for t in text_rows(res)]
         exp = [(s[a:b].upper() if st == "+" else rc_model(s[a:b])) for a, b, st in ivs]
         ctx.check("strand_specific", got == exp, "get_strand_specific_sequences/wrong", "stranded extraction gave %r expected %r" % (got[:3], exp[:3]), dict(c, got=got, expected=exp), (s, tuple(ivs), ename))
+        if c.get("edit") and len(s) >= 2:
+            # the caller edits the reference in place (masks a stretch) and extracts again from the same object: the letters now held count
+            er = random.Random(c["edit"])
+            a_ = er.randrange(len(s) - 1)
+            b_ = er.randint(a_ + 1, min(len(s), a_ + 4))
+            fill = er.choice(["N", "A"]) if ename != "ACGT" else er.choice("ACGT")
+            seq[a_:b_] = fill * (b_ - a_)
+            s2 = s[:a_] + fill * (b_ - a_) + s[b_:]
+            got2 = [t.upper() for t in text_rows(get_strand_specific_sequences(seq, table))]
+            exp2 = [(s2[a:b].upper() if st == "+" else rc_model(s2[a:b])) for a, b, st in ivs]
+            ctx.check("strand_specific", got2 == exp2, "get_strand_specific_sequences/letters-of-before-an-in-place-edit", "after seq[%d:%d] = %r the extraction gave %r, the reference now reads %r" % (a_, b_, fill, got2[:3], exp2[:3]),
+                      dict(c, edited=s2, got=got2, expected=exp2), (s, tuple(ivs), ename, a_, b_, fill))
+            ctx.check("strand_specific", [t.upper() for t in text_rows(res)] == exp, "get_strand_specific_sequences/held-result-changed-by-an-edit-of-the-reference", "the first extraction now reads %r" % ([t.upper() for t in text_rows(res)][:3],), dict(c), None)
+            ctx.count("extractions_after_an_edit")
 
     for _ in range(ctx.share(ctx.pick(1500, 60000))):
         ename = rng.choice(["ascii", "ACGTn", "ACGT"])
@@ -146,7 +179,7 @@ def run(ctx):
             a = rng.randint(0, L - 1)
             b = rng.randint(a + 1, L)
             ivs.append((a, b, rng.choice("+-")))
-        ctx.run_case(case_stranded, {"sequence": s, "intervals": ivs, "enc": ename})
+        ctx.run_case(case_stranded, {"sequence": s, "intervals": ivs, "enc": ename, "edit": rng.randrange(1, 2 ** 30) if rng.random() < 0.3 else 0})
 
     def case_genomic(c):
         chroms, ivs = c["chroms"], c["intervals"]
